@@ -166,14 +166,16 @@ theorem freeName_not_mem (taken : List String) (name : String) : freeName taken 
 structure Inv (c : NContent) (st : GenSt) (rs : List Ref) : Prop where
   base : ∀ k ∈ takenOf (symOf c), k ∈ st.1
   keys : ∀ k ∈ keysOf st.2, k ∈ st.1
+  defsComp : ∀ kd ∈ st.2, kd.1 ∈ takenOf (symOf c) → (kd.1, (⟨kd.2.src, kd.2.params⟩ : Use)) ∈ compEntries c
+  present : ∀ r ∈ rs, r.key ∈ keysOf st.2
   refsComp : ∀ r ∈ rs, r.key ∈ takenOf (symOf c) → (r.key, (⟨r.src, r.args⟩ : Use)) ∈ compEntries c
   genOk : ∀ r ∈ rs, r.key ∉ takenOf (symOf c) → refOk st.2 r = true
   allOk : keysInjective c = true → ∀ r ∈ rs, refOk st.2 r = true
 
 theorem Inv.mono {c : NContent} {st : GenSt} {rs rs' : List Ref} (h : Inv c st rs) (hs : ∀ r ∈ rs', r ∈ rs) :
     Inv c st rs' :=
-  ⟨h.base, h.keys, fun r hr => h.refsComp r (hs r hr), fun r hr => h.genOk r (hs r hr),
-   fun hk r hr => h.allOk hk r (hs r hr)⟩
+  ⟨h.base, h.keys, h.defsComp, fun r hr => h.present r (hs r hr), fun r hr => h.refsComp r (hs r hr),
+   fun r hr => h.genOk r (hs r hr), fun hk r hr => h.allOk hk r (hs r hr)⟩
 
 /-- a step that files a definition under a generated key -/
 theorem Inv.gen {c : NContent} {st : GenSt} {rs : List Ref} (h : Inv c st rs) (name : String) (f : SymFn) :
@@ -183,11 +185,19 @@ theorem Inv.gen {c : NContent} {st : GenSt} {rs : List Ref} (h : Inv c st rs) (n
   have hnk : ∀ r : Ref, refOk st.2 r = true → r.key ≠ freeName st.1 name := by
     intro r hr heq
     exact hfresh (heq ▸ h.keys _ (refOk_key_mem hr))
-  refine ⟨fun k hk => List.mem_cons_of_mem _ (h.base k hk), ?_, ?_, ?_, ?_⟩
+  refine ⟨fun k hk => List.mem_cons_of_mem _ (h.base k hk), ?_, ?_, ?_, ?_, ?_, ?_⟩
   · intro k hk
     rcases (mem_keys_put _ _ _ _).mp hk with h1 | h1
     · subst h1; exact List.mem_cons_self
     · exact List.mem_cons_of_mem _ (h.keys k h1)
+  · intro kd hkd hT
+    rcases mem_omInsert _ _ _ _ hkd with h1 | h1
+    · exact h.defsComp kd h1 hT
+    · subst h1; exact absurd (h.base _ hT) hfresh
+  · intro r hr
+    cases List.mem_cons.mp hr with
+    | inl h1 => subst h1; exact (mem_keys_put _ _ _ _).mpr (Or.inl rfl)
+    | inr h1 => exact (mem_keys_put _ _ _ _).mpr (Or.inr (h.present r h1))
   · intro r hr hT
     cases List.mem_cons.mp hr with
     | inl h1 => subst h1; exact absurd (h.base _ hT) hfresh
@@ -209,11 +219,19 @@ theorem Inv.gen {c : NContent} {st : GenSt} {rs : List Ref} (h : Inv c st rs) (n
 theorem Inv.comp {c : NContent} {st : GenSt} {rs : List Ref} (h : Inv c st rs) (f : SymFn)
     (hT : f.fnName ∈ takenOf (symOf c)) (hf : (f.fnName, (⟨f.src, f.args⟩ : Use)) ∈ compEntries c) :
     Inv c (st.1, st.2.put f.fnName f) ({ key := f.fnName, args := f.args, src := f.src } :: rs) := by
-  refine ⟨h.base, ?_, ?_, ?_, ?_⟩
+  refine ⟨h.base, ?_, ?_, ?_, ?_, ?_, ?_⟩
   · intro k hk
     rcases (mem_keys_put _ _ _ _).mp hk with h1 | h1
     · subst h1; exact h.base _ hT
     · exact h.keys k h1
+  · intro kd hkd hkT
+    rcases mem_omInsert _ _ _ _ hkd with h1 | h1
+    · exact h.defsComp kd h1 hkT
+    · subst h1; exact hf
+  · intro r hr
+    cases List.mem_cons.mp hr with
+    | inl h1 => subst h1; exact (mem_keys_put _ _ _ _).mpr (Or.inl rfl)
+    | inr h1 => exact (mem_keys_put _ _ _ _).mpr (Or.inr (h.present r h1))
   · intro r hr hrT
     cases List.mem_cons.mp hr with
     | inl h1 => subst h1; exact hf
@@ -364,8 +382,8 @@ theorem symOf_comp (c : NContent) :
 theorem program_inv (c : NContent) :
     ∃ t, Inv c (t, (genProgram (symOf c)).defs) ((genProgram (symOf c)).build.flatMap Call.refs) := by
   have h0 : Inv c (takenOf (symOf c), []) [] :=
-    ⟨fun k hk => hk, fun k hk => (by cases hk), fun r hr => (by cases hr), fun r hr => (by cases hr),
-     fun _ r hr => (by cases hr)⟩
+    ⟨fun k hk => hk, fun k hk => (by cases hk), fun kd hkd => (by cases hkd), fun r hr => (by cases hr),
+     fun r hr => (by cases hr), fun r hr => (by cases hr), fun _ r hr => (by cases hr)⟩
   have h1 := genInits_inv (c := c) Call.addVariable (fun _ _ => rfl) (symOf c).variables _ _ h0
   have h2 := genInits_inv (c := c) Call.addParameter (fun _ _ => rfl) (symOf c).parameters _ _ h1
   have h3 := genDerived_inv (symOf c).derived _ _ (symOf_comp c).1 h2
@@ -405,6 +423,85 @@ theorem defs_nodup_of_input (c : NContent) (ha : argsNoDup c = true) :
   have := List.all_eq_true.mp ha _ h1
   simpa using this
 
+/-! ### the names check (`_check_function_names`) -/
+
+theorem compFns_symOf (c : NContent) : compFns (symOf c) = (compEntries c).map fun e => symFnOf c e.2 := by
+  simp [compFns, symOf, compEntries, List.map_map, Function.comp_def]
+
+theorem compEntries_name {c : NContent} {e : String × Use} (h : e ∈ compEntries c) :
+    (c.pyfn e.2.fid).name = e.1 := by
+  simp only [compEntries, List.mem_append, List.mem_map] at h
+  rcases h with ⟨kv, _, rfl⟩ | ⟨kv, _, rfl⟩ <;> rfl
+
+theorem consistent_entry {c : NContent} (hcons : namesConsistent (symOf c) = true) {e : String × Use}
+    (he : e ∈ compEntries c) {g : SymFn} (hr : refFn (compFns (symOf c)) e.1 = some g) : g.src = e.2.fid := by
+  simp only [namesConsistent, List.all_eq_true] at hcons
+  have hm : symFnOf c e.2 ∈ compFns (symOf c) := by
+    rw [compFns_symOf]; exact List.mem_map_of_mem (f := fun e => symFnOf c e.2) he
+  have := hcons _ hm
+  have hn : (symFnOf c e.2).fnName = e.1 := compEntries_name he
+  rw [hn, hr] at this
+  simpa [symFnOf] using this
+
+theorem refFn_some {c : NContent} {e : String × Use} (he : e ∈ compEntries c) (hd : hasDup e.2.args = false) :
+    ∃ g, refFn (compFns (symOf c)) e.1 = some g := by
+  cases hr : refFn (compFns (symOf c)) e.1 with
+  | some g => exact ⟨g, rfl⟩
+  | none =>
+    exfalso
+    have hm : symFnOf c e.2 ∈ compFns (symOf c) := by
+      rw [compFns_symOf]; exact List.mem_map_of_mem (f := fun e => symFnOf c e.2) he
+    have := List.find?_eq_none.mp hr _ hm
+    have hn : (c.pyfn e.2.fid).name = e.1 := compEntries_name he
+    simp [symFnOf, hd] at this
+    exact this hn
+
+/-- no two different derived / reaction functions share a `__name__` ⇒ the names check passes -/
+theorem consistent_of_input (c : NContent) (hk : keysInjective c = true) : namesConsistent (symOf c) = true := by
+  simp only [namesConsistent, List.all_eq_true]
+  intro f hf
+  cases hr : refFn (compFns (symOf c)) f.fnName with
+  | none => rfl
+  | some g =>
+    have hp := List.find?_some hr
+    have hgm := List.mem_of_find?_eq_some hr
+    rw [compFns_symOf] at hf hgm
+    obtain ⟨e1, he1, rfl⟩ := List.mem_map.mp hf
+    obtain ⟨e2, he2, rfl⟩ := List.mem_map.mp hgm
+    have hn1 : (symFnOf c e1.2).fnName = e1.1 := compEntries_name he1
+    have hn2 : (symFnOf c e2.2).fnName = e2.1 := compEntries_name he2
+    have hname : e2.1 = e1.1 := by
+      rw [hn1, hn2] at hp
+      simp only [Bool.and_eq_true, beq_iff_eq] at hp
+      exact hp.1
+    have := List.all_eq_true.mp (List.all_eq_true.mp hk e2 he2) e1 he1
+    simp only [hname, bne_self_eq_false, Bool.false_or, beq_iff_eq] at this
+    simp [symFnOf, this]
+
+/-- the names check passes and no emitted definition repeats a parameter ⇒ every reference finds the definition of
+    its own function object -/
+theorem srcOk_of_consistent (c : NContent) (hcons : namesConsistent (symOf c) = true)
+    (hnd : ((genProgram (symOf c)).defs.all fun kd => !hasDup kd.2.params) = true) :
+    (genProgram (symOf c)).srcOk = true := by
+  obtain ⟨t, h⟩ := program_inv c
+  simp only [Program.srcOk, List.all_eq_true]
+  intro call hcall r hr
+  have hmem : r ∈ (genProgram (symOf c)).build.flatMap Call.refs := List.mem_flatMap.mpr ⟨call, hcall, hr⟩
+  by_cases hT : r.key ∈ takenOf (symOf c)
+  · obtain ⟨d, hd⟩ := lookup_some_of_keys (h.present r hmem)
+    have hdm := lookup_some_mem _ _ _ hd
+    have hde := h.defsComp _ hdm hT
+    have hre := h.refsComp r hmem hT
+    have hdn : hasDup d.params = false := by
+      have := List.all_eq_true.mp hnd _ hdm
+      simpa using this
+    obtain ⟨g, hg⟩ := refFn_some hde hdn
+    have h1 := consistent_entry hcons hde hg
+    have h2 := consistent_entry hcons hre hg
+    simp only at h1 h2
+    simp [refOk, hd, ← h1, h2]
+  · exact h.genOk r hmem hT
+
 /-- **input-level sufficient condition** for the hypothesis of the round-trip theorem -/
 theorem refsResolve_of_input (c : NContent) (hk : keysInjective c = true) (ha : argsNoDup c = true) :
     refsResolve c = true := by
@@ -413,31 +510,45 @@ theorem refsResolve_of_input (c : NContent) (hk : keysInjective c = true) (ha : 
   have h2 : ((genProgram (symOf c)).build.all fun call => call.refs.all (refOk (genProgram (symOf c)).defs)) = true :=
     srcOk_of_input c hk
   simp only [Program.refsOk, Bool.and_eq_true]
-  exact ⟨defs_nodup_of_input c ha, h2⟩
+  exact ⟨consistent_of_input c hk, defs_nodup_of_input c ha, h2⟩
 
-/-- … and for the weaker hypothesis that only excludes F-C11-1 -/
+/-- … and for the weaker hypothesis that allows repeated arguments -/
 theorem refsSrcOk_of_input (c : NContent) (hk : keysInjective c = true) : refsSrcOk c = true := by
   unfold refsSrcOk
   rw [toSymbolicRepr_nil]
-  exact srcOk_of_input c hk
+  simp only [Bool.and_eq_true]
+  exact ⟨consistent_of_input c hk, srcOk_of_input c hk⟩
 
-/-- **round trip, repeated arguments allowed**: the model is rebuilt, or generation raises ValueError -/
-theorem roundTrip_or_raises (c : NContent) (hc : Canonical c) (h : refsSrcOk c = true) :
+/-- **round trip, every model**: the model is rebuilt, or generation raises ValueError (two different functions with
+    one name, or a repeated argument) -/
+theorem roundTrip_or_raises_all (c : NContent) (hc : Canonical c) :
     roundTrip [] c = .ok c.toContent ∨ ∃ m, roundTrip [] c = .error (.valueError m) := by
-  cases hnd : ((genProgram (symOf c)).defs.all fun kd => !hasDup kd.2.params) with
-  | true =>
-    left
-    refine roundTrip_ok c hc ?_
-    unfold refsSrcOk at h
-    unfold refsResolve
-    rw [toSymbolicRepr_nil] at h ⊢
-    simp only [Program.refsOk, Bool.and_eq_true]
-    exact ⟨hnd, h⟩
+  cases hcons : namesConsistent (symOf c) with
   | false =>
     right
-    refine ⟨"an argument is repeated", ?_⟩
+    refine ⟨"two different functions have the same name", ?_⟩
     unfold roundTrip
     rw [toSymbolicRepr_nil]
-    simp [bind, Except.bind, genMxlpy, hnd]
+    simp [bind, Except.bind, genMxlpy, hcons]
+  | true =>
+    cases hnd : ((genProgram (symOf c)).defs.all fun kd => !hasDup kd.2.params) with
+    | true =>
+      left
+      refine roundTrip_ok c hc ?_
+      unfold refsResolve
+      rw [toSymbolicRepr_nil]
+      simp only [Program.refsOk, Bool.and_eq_true]
+      exact ⟨hcons, hnd, srcOk_of_consistent c hcons hnd⟩
+    | false =>
+      right
+      refine ⟨"an argument is repeated", ?_⟩
+      unfold roundTrip
+      rw [toSymbolicRepr_nil]
+      simp [bind, Except.bind, genMxlpy, hcons, hnd]
+
+/-- (kept for the older statement: the hypothesis is no longer needed) -/
+theorem roundTrip_or_raises (c : NContent) (hc : Canonical c) (_h : refsSrcOk c = true) :
+    roundTrip [] c = .ok c.toContent ∨ ∃ m, roundTrip [] c = .error (.valueError m) :=
+  roundTrip_or_raises_all c hc
 
 end Mxl.C11
